@@ -109,6 +109,8 @@ def run(res, wd, drv, tier):
     if not jobs_in:
         return []
     jobs, crashes, _ = c25.run_driver(drv, jobs_in, timeout=2400, nproc=1)      # one process: results stay in input order
+    for j in jobs:
+        j.errs = []                # a schedule the real tree cannot follow to the end is a drift (reported below), not an infrastructure error
     c25.judge(res, wd, "conc", jobs, crashes, "C25")
     steps = 0; drift = 0
     for i, (name, g, init_id, w, c) in enumerate(meta):
